@@ -47,6 +47,9 @@ CHECKS = {
     "C13": dict(text="Doc::render_console (with the Splitter) executed from MIR on the block structures bpaf emits, text of symbolic bytes, symbolic width: inserted bytes are only spaces/newlines and the non-whitespace user bytes appear exactly once and in order (exact provenance); short form is a prefix / the whole first paragraph; with a concrete multi-word filler and max_width symbolic in 40..=48 every multi-word line is at most max_width+2 columns",
                 note="bounds: 8 templates, symbolic text <=4 bytes quick / <=5 thorough over {space,newline,a,b,é}, widths 1..=16 and 100 for content, 40..=48 for the width clause; widths 49..=300, longer texts and colours are outside",
                 tech=MIRSYM + " over symbolic bytes, provenance obligations", ref="DESIGN.md 4/C13"),
+    "C14": dict(text="run_subparser executed from the full-feature MIR in completion mode on 0-2 symbolic words followed by a concrete word being typed; Complete::complete, arg_matches/cmd_matches, Doc::to_completion and render_test run on real text: the outcome is always Completion; every candidate with a replacement is a visible name (preferred spelling) of the entered or an enclosing level that matches the typed word, a subcommand of the active level extending it, or the `--` hint - never a hidden name or one of a command not entered; after clean prefixes every visible not-yet-given name extending `--prefix` is offered. One concrete argv per path is validated against the native completion text",
+                note="the typed word ranges over 18 concrete words, the prefix is symbolic (<=2 words quick / <=3 thorough); no completer values, adjacent groups or non-UTF-8 last words in the corpus; one known finding (`name=` for an unavailable item)",
+                tech=MIRSYM + ", token layer prefix + concrete typed word", ref="DESIGN.md 4/C14"),
     "C15": dict(text="the single-quote wrapper `Shell` executed from MIR (core::fmt interpreted) on every valid UTF-8 string up to the bound: the output lexes under POSIX rules as exactly one word with the input as value; render_zsh/bash/fish/simple executed from MIR on candidate and completer lists whose user-originated strings are tracked atoms: no atom reaches a zsh/bash script unquoted, every line is a complete directive, every candidate / requested completer appears exactly once",
                 note="bounds: strings <=6 bytes quick / <=8 thorough; 0-2 candidates, 0-1 (thorough 0-2) completers; reference lexers in props/C15.py; sourcing in a real shell not attempted; three defects found and fixed (7d9d288, 7f18a65, 640d5de)",
                 tech=MIRSYM + " over symbolic bytes / tracked atoms", ref="DESIGN.md 4/C15"),
